@@ -164,6 +164,21 @@ func (Engine) Run(c *choice.Src, o engine.Opt) (out engine.Out) {
 	total := 0
 	for ti := range plans {
 		k := 2 + c.Choose(5, "nops")
+		if ti > 0 && c.Bool(1, 4, "monitor") {
+			// a monitor task: only the read-only queries, back to back (what a caller polling the
+			// object does), so that two observations of ONE pending update are compared
+			k = 4 + c.Choose(3, "monitor.nops")
+			for j := 0; j < k && total < 24; j++ {
+				op := thrmodel.Op{Name: "EnoughShares", Share: -1}
+				if c.Bool(1, 2, "monitor.has") {
+					op = thrmodel.Op{Name: "HasShare", Orig: c.Choose(n, "monitor.idx"), Share: -1}
+				}
+				plans[ti] = append(plans[ti], op)
+				total++
+			}
+			out.Faults["workload.monitor_task"]++
+			continue
+		}
 		for j := 0; j < k && total < 24; j++ {
 			op := thrmodel.Op{Name: names[c.Weighted(opW, "op")], Share: -1}
 			switch op.Name {
